@@ -16,7 +16,9 @@ from .model import AnalysisError
 
 
 class Scenario:
-    def __init__(self, name, vtypes, edges, fixed=(), fix_first_pose=False, err_len=2, alias=None, symbolic_ids=False, identical_edges=False):
+    def __init__(self, name, vtypes, edges, fixed=(), fix_first_pose=False, err_len=2, alias=None, symbolic_ids=False, identical_edges=False,
+                 int_flags=False):
+        self.int_flags = int_flags   # the fixed flags are given as 1 / 0 (as the package's own tests do), not as True / False
         self.identical_edges = identical_edges   # all edges carry the same symbolic error / information / Jacobians (cheap for thousands of edges)
         self.name, self.vtypes, self.edges, self.fixed, self.ffp, self.err_len = name, vtypes, edges, set(fixed), fix_first_pose, err_len
         self.alias = alias      # (i, j): vertices i and j hold the *same* pose object
@@ -33,6 +35,7 @@ SCENARIOS = [
     Scenario("fixed-two", BASE_V, BASE_E, fixed=[0, 2]),
     Scenario("fixed-marked-plus-first", BASE_V, BASE_E, fixed=[2], fix_first_pose=True),
     Scenario("all-fixed", BASE_V, BASE_E, fixed=[0, 1, 2]),
+    Scenario("fixed-two-flags-given-as-1-and-0", BASE_V, BASE_E, fixed=[0, 2], int_flags=True),
     Scenario("isolated-fixed-vertex", BASE_V + ["PoseR3"], BASE_E, fixed=[3], fix_first_pose=True),
     Scenario("isolated-fixed-vertex-first", ["PoseR3"] + BASE_V, [tuple(k + 1 for k in e) for e in BASE_E], fix_first_pose=True),
     Scenario("parallel-only", ["PoseSE2", "PoseSE2"], [(0, 1), (0, 1), (1, 0)], fix_first_pose=True),
@@ -45,6 +48,14 @@ SEQUENCES = [
     (Scenario("seq-fixed-two", BASE_V, BASE_E, fixed=[0, 2]), Scenario("seq-then-free", BASE_V, BASE_E)),
     (Scenario("seq-fix-first", BASE_V, BASE_E, fix_first_pose=True), Scenario("seq-then-also-last", BASE_V, BASE_E, fixed=[0, 2])),
 ]
+
+
+def truthy(x):
+    """Truth value of a flag of the analysed program (True / False, or a number)."""
+    if isinstance(x, Poly):
+        c = x.const_value()
+        return c is None or c != 0
+    return bool(x)
 
 
 def sym_symmetric(name, n):
@@ -123,7 +134,10 @@ def _build(it, scn):
         poses[scn.alias[1]] = poses[scn.alias[0]]
     def vid(k):
         return Poly.var("id%d" % k) if scn.symbolic_ids else Poly.const(100 + 7 * k)
-    verts = [it.construct("Vertex", [vid(k), poses[k]], dict(fixed=(k in scn.fixed))) for k in range(len(dims))]
+    def flag(k):
+        on = k in scn.fixed
+        return Poly.const(1 if on else 0) if getattr(scn, "int_flags", False) else on
+    verts = [it.construct("Vertex", [vid(k), poses[k]], dict(fixed=flag(k))) for k in range(len(dims))]
     edges, spec = [], []
     m = scn.err_len
     shared = {}
@@ -193,7 +207,7 @@ def _assemble_and_compare(it, g, verts, dims, spec, scn, label="", chi2_only=Fal
         b, H, chi2 = gp(g, "_gradient"), gp(g, "_hessian"), gp(g, "_chi2")
         via = "prelude"
     for k, v in enumerate(verts):
-        if bool(ga(v, "fixed", None)) != (k in fixed):
+        if truthy(ga(v, "fixed", None)) != (k in fixed):
             raise ObFail("%swhen optimize(fix_first_pose=%r) assembles its first system vertex %d has fixed=%r, expected %r" % (
                 label, scn.ffp, k, ga(v, "fixed", None), k in fixed))
     offs = [sum(dims[:k]) for k in range(len(dims))]
@@ -339,6 +353,22 @@ def real_edges_obligation(kind, fixed=(), ffp=True):
         st["scenario"] = scn.name
         return st
     return lambda pkg: run_obligation(pkg, fn)
+
+
+def directed_assembly_tasks(prefix, rule, where, chi2_only=False):
+    """Factory for `algebra.across_thresholds`: assembly scenarios whose numbers of vertices / edges / unknowns lie on the far side
+    of (and right at) each size constant: a star-plus-chain over k vertices for k around c/2, c and 2c."""
+    def make(consts):
+        out = []
+        for c in consts:
+            for k in sorted({max(c // 2 - 1, 2), max(c // 2, 2), c // 2 + 1, max(c - 1, 2), c, c + 1, 2 * c}):
+                vt = ["PoseSE2"] + ["PoseR2"] * (k - 1)
+                ed = [(0, j) for j in range(1, k)] + [(j, j + 1) for j in range(1, k - 1)]
+                scn = Scenario("directed/%d-vertices" % k, vt, ed, fix_first_pose=True, identical_edges=True)
+                out.append(("%s/%s (aimed at the size constant %d in the code)" % (prefix, scn.name, c), rule,
+                            assembly_obligation(scn, chi2_only=chi2_only, allow_size_thresholds=True), where))
+        return out
+    return make
 
 
 def sequence_obligation(first, second):
